@@ -61,6 +61,7 @@ import CtyModel.Lemmas.JsonValReject
 import CtyModel.Lemmas.JsonValDoc
 import CtyModel.Lemmas.JsonValMirror
 import CtyModel.Lemmas.JsonValEquals
+import CtyModel.Lemmas.JsonMarshalFnsTie
 namespace CtyModel
 namespace C15
 open Ty JsonVal
@@ -678,6 +679,59 @@ as `[3.9477794105]`, read back as the 512-bit number, which lands in another buc
 theorem mirror_with_sets_counterexample : ¬ mirror_with_sets := fun h =>
   absurd (h envHash ⟨.set .number, .sset [1243578146] [.n (.fin false 4444804470517179 (-50) 53)]⟩
     (by decide +kernel) (by decide +kernel)) (by decide +kernel)
+
+/-! ## The same about the REGENERATED encoder
+
+`Generated.JsonMarshalFns.marshal` is translated from cty/json/marshal.go (`marshal`, `marshalDynamic`) by
+extract/translate_jsonmarshal.go on every check; `JsonMarshalFnsTie.marshal_tie` proves it answers as
+`JsonVal.marshal` does — same outcome, and on success the output buffer holds exactly the tokens
+`JsonGo.render j` of the model's document `j` — for every order `ord` in which Go's `range` may visit the
+attribute map, on well-formed set-free values conforming to the constraint.  The clauses above therefore
+hold of what the source says now. -/
+
+/-- `roundtrip_partial` of the regenerated encoder: it writes the tokens of a document `j` (into an empty
+buffer) that `Unmarshal` with the same constraint decodes to a value of the original type with the same
+payload. -/
+theorem roundtrip_partial_generated (env : JEnv) (ord : JsonGo.MapOrder) (ho : ∀ l, (ord l).Perm l) (v : Value) (t : Ty)
+    (h : rtHyps env v t = true) (hs : setFree v.ty = true) (hx : exact t v.ty v.v = true) :
+    ∃ j v', Generated.JsonMarshalFns.marshal env ord v t [] = .ok (JsonGo.render j) ∧
+      unmarshalTop env j t = .ok v' ∧ v'.ty = v.ty ∧ sameP v'.v v.v = true := by
+  obtain ⟨j, v', hj, hu, hty, hsame⟩ := roundtrip_partial env v t h hs hx
+  have h' := h
+  simp only [rtHyps, Bool.and_eq_true, Bool.not_eq_true'] at h'
+  obtain ⟨⟨⟨⟨⟨⟨⟨⟨⟨⟨h1, h2⟩, _⟩, h4⟩, _⟩, _⟩, _⟩, _⟩, _⟩, h10⟩, _⟩ := h'
+  exact ⟨j, v', by simpa using (JsonMarshalFnsTie.marshal_tie env ord ho v t [] h1 h2 h10 h4 hs).ok_of hj, hu, hty, hsame⟩
+
+/-- `mirror_structure_any_constraint` of the regenerated encoder: whenever it returns, what it wrote is the
+token list of a document with the structure `mirrorsW` describes (wrapper objects exactly at the placeholder
+positions of the constraint). -/
+theorem mirror_structure_any_constraint_generated (env : JEnv) (ord : JsonGo.MapOrder) (ho : ∀ l, (ord l).Perm l)
+    (v : Value) (t : Ty) (buf : JsonGo.Buf)
+    (hwt : wf t = true) (hwv : wf v.ty = true) (hconf : «matches» t v.ty = true) (hwf : wfP v.ty v.v = true)
+    (hs : setFree v.ty = true) (hj : Generated.JsonMarshalFns.marshal env ord v t [] = .ok buf) :
+    ∃ j, buf = JsonGo.render j ∧ mirrorsW t v.ty v.v j = true := by
+  obtain ⟨j, hm, hb⟩ := (JsonMarshalFnsTie.marshal_tie env ord ho v t [] hwt hwv hconf hwf hs).of_ok hj
+  exact ⟨j, by simpa using hb, mirror_structure_any_constraint env v t j hs hm⟩
+
+/-- `rejects_unknown_marked` of the regenerated encoder (set-free values: the set branch of the translation is
+generated but outside the tie, see `Lemmas/JsonMarshalFnsTie.lean`): a value holding a mark, an unknown or an
+infinity anywhere is refused with an ERROR — never a panic, never a document — whatever order Go's `range` takes. -/
+theorem rejects_unknown_marked_generated (env : JEnv) (ord : JsonGo.MapOrder) (ho : ∀ l, (ord l).Perm l)
+    (v : Value) (t : Ty) (b : JsonGo.Buf)
+    (hwt : wf t = true) (hwv : wf v.ty = true) (hcaps : hasCapsule v.ty = false)
+    (hset : setFree v.ty = true) (hconf : «matches» t v.ty = true) (hwf : wfP v.ty v.v = true)
+    (h : v.v.containsMarked = true ∨ v.v.whollyKnown = false ∨ hasInf v.v = true) :
+    ∃ c, Generated.JsonMarshalFns.marshal env ord v t b = .err c := by
+  obtain ⟨c, hc⟩ := rejects_unknown_marked env v t hwt hwv hcaps hset hconf hwf h
+  exact (JsonMarshalFnsTie.marshal_tie env ord ho v t b hwt hwv hconf hwf hset).err_of hc
+
+/-- non-vacuous, and the regenerated definitions COMPUTE: the sample of the non-vacuity section, with Go's map
+order reversed, gives the tokens of the document the model gives -/
+example : Generated.JsonMarshalFns.marshal env0 List.reverse ⟨.object ["a", "b"] [.list .string, .map .bool] [false, false],
+      .smap ["a", "b"] [.seq [.s "x", .null], .smap ["k"] [.b true]]⟩
+      (.object ["a", "b"] [.dyn, .map .dyn] [false, false]) [] =
+    .ok (JsonGo.render (.obj ["a", "b"] [.obj ["value", "type"] [.arr [.str "x", .null], .arr [.str "list", .str "string"]],
+      .obj ["k"] [.obj ["value", "type"] [.bool true, .str "bool"]]])) := by decide +kernel
 
 /-! ## Non-vacuity -/
 
